@@ -74,6 +74,8 @@ CURATED_LOCALES = [
     "en-US", "en-GB", "pt-BR", "es-MX", "zh-TW", "hi-IN", "bn-BD", "fy-NL", "nb-NO", "ast-ES",
     # script, script+region, numeric region, variant
     "sr-Latn", "sr-Cyrl", "zh-Hant-TW", "zh-Hans-CN", "uz-Latn-UZ", "es-419", "ca-valencia", "sr-Cyrl-RS", "az-Arab",
+    # a language subtag ending in "b" in the b+ form (str.replace("b+", "") also hits "kab+")
+    "kab-Latn", "hsb-419", "dsb-Latn-DE",
     # legacy codes
     "he", "id", "yi", "he-IL", "id-ID", "yi-US", "id-Latn", "he-Hebr-IL", "id-Latn-ID", "yi-Hebr",
 ]
@@ -198,8 +200,10 @@ def run_android(ctx, out):
                 out.violations.append({"what": "Android form of %r is %r, expected %r" % (l, r["android"], exp), "input": inp, "op": "android"})
                 continue
             if r["back"] != l:
+                # root cause on the input: the b+ form contains a further "b+" (a subtag ending in "b")
+                f = None   # the inner-"b+" stripping defect is fixed in /repo (21e8ed0); a failing round trip is a plain violation
                 out.violations.append({"what": "%r -> %r -> %r: not the same locale" % (l, r["android"], r["back"]), "input": inp,
-                                       "op": "android", "finding": None})
+                                       "op": "android", "finding": f})
                 continue
             out.nontrivial.add(("android", l))
             out.count("android.cases")
@@ -333,25 +337,22 @@ SEPARATOR_PROBES = [
 def run(ctx):
     out = Outcome()
     out.rule = ("single matchers from the C11 grammar (bounded-exhaustive up to 2/3 segments + seeded random, roots, with_env, nested "
-                "variables) with the path obtained by filling the wildcards and ~9 mutated paths each (extra directory, separator in a "
+                "variables, `**.ftl`-style adjacent stars, roots with regex metacharacters incl. paths just outside the root; sequences: use, "
+                "with_env, use again) with the path obtained by filling the wildcards and ~9 mutated paths each (extra directory, separator in a "
                 "star, truncated, extended, trailing newline, changed character) judged by an independent glob reference; environments "
                 "with self/mutual references and the locale/android_locale cycle; random pattern strings (generic laws); Android "
                 "conversion over a curated list + all shipped locales; mozpath.match over all patterns of <= 3 segments from 8 forms. "
                 "non-trivial = successful match with groups / locale converted / mozpath pattern with both verdicts; distinct inputs")
     rng = ctx.rng("c12")
-    sides = [sd for _, sd in E.enum_sides(2 if ctx.tier == "quick" else 3)]
+    sides = E.enum_sides(2 if ctx.tier == "quick" else 3)
     triples = []
-    for idx, sd in enumerate(sides):
-        kinds = [a[0] for seg in sd.segs for a in seg if a[0] in "sd"]
-        trailing = sd.segs[-1][0][0] == "d"
-        opts = [(["", "m", "x.y"] if k == "s" else (["", "f", "d/f.x"] if trailing and i == len(kinds) - 1 else ["", "d/", "d/e/"]))
-                for i, k in enumerate(kinds)]
-        allf = list(itertools.product(*opts))
+    for idx, (sig, sd) in enumerate(sides):
+        allf = E.fill_options(sig)
         for fl in (allf if len(allf) <= 9 else rng.sample(allf, 9)):
             a = E.clone(sd)
             a.env = dict(E.ENUM_ENVS[idx % 2])
             if idx % 5 == 0 and not G.first_is_wildcard(a):
-                a.root = G.ROOTS[idx % 3]
+                a.root = G.ROOTS[idx % len(G.ROOTS)]
             triples.append((a, a, dict(enumerate(fl))))
     out.count("enum.singles", len(triples))
     E.run_pairs(ctx, out, triples, "enum", want_sub=False, want_neg=True, rng=rng)
@@ -360,6 +361,7 @@ def run(ctx):
         a, b, fills = G.gen_pair(rng)
         rnd.append((a, a, fills))
     E.run_pairs(ctx, out, rnd, "random", want_sub=False, want_neg=True, rng=rng)
+    E.run_sequences(ctx, out, ctx.n(1500, 15000), ctx.rng("c12", "seq"))
     pr = [p for p in E.probe_cases(rng, ctx.n(300, 2000))]
     for cls in sorted({p[0] for p in pr}):
         E.run_pairs(ctx, out, [(p[1], p[1], p[3]) for p in pr if p[0] == cls], cls, want_sub=False, want_neg=True, rng=rng)
@@ -379,6 +381,8 @@ def replay(payload):
         i = v["input"]
         if v.get("op") == "pair":
             res.extend(E.replay({"violations": [v]})["cases"])
+        elif v.get("op") == "sequence":
+            res.append(E.replay_sequence(i))
         elif v.get("op") == "spec":
             r = pool.pmap("impl.matcher", "impl_matcher", [[{k: i[k] for k in ("pat", "env", "root", "with", "paths")}]], timeout=10.0)[0]
             bad = generic_laws(i, r["r"]) if "r" in r else [("crash", None)]
